@@ -270,7 +270,9 @@ GenSeg(H, list, sid) ==
   [pre  |-> Flat([i \in 1..Len(list) |-> SelectSeq(ErrList(H.nodes[list[i]], sid), LAMBDA e : e.code = "3")]),
    post |-> Flat([i \in 1..Len(list) |->
                     SelectSeq(ErrList(H.nodes[list[i]], sid), LAMBDA e : e.code # "3")
-                    \o SelectSeq(EleErrs(H, list[i]), LAMBDA e : ~(sid = "GE" /\ e.on = "GS"))])]
+                    \* an envelope node holds the element errors of its header and of its trailer: each is written at its own line
+                    \o SelectSeq(EleErrs(H, list[i]), LAMBDA e : H.nodes[list[i]].kind \notin {"ISA", "GS", "ST"}
+                                                                  \/ ((e.on \in {"IEA", "GE", "SE"}) = (sid \in {"IEA", "GE", "SE"})))])]
 (* ---- error_html.footer: trailing envelope errors; crashed when no set / group / interchange was ever opened ---- *)
 Footer(H) ==
   IF H.st = 0 \/ H.gs = 0 \/ H.isa = 0 THEN [crashed |-> TRUE, errs |-> <<>>]
